@@ -500,4 +500,127 @@ theorem spec_cleanup (w : World) : Spec (cleanup w) w.ids (fun _ => []) := by
   refine Spec.bind (mid := fun _ => []) (spec_cleanup_go w.ix) (fun _ => ?_)
   exact Spec.pure (by ceqW)
 
+
+/-! ## facts used by the property statements -/
+
+/-- a sane heap to start from: whatever else the application has allocated (`live`), nothing freed wrongly -/
+def HeapWF (h : Heap) : Prop := h.bad = false ∧ h.live.Nodup ∧ ∀ i ∈ h.live, i < h.next
+
+theorem good_of_wf {h : Heap} (hw : HeapWF h) : Good h ([] ++ h.live) := by
+  obtain ⟨h1, h2, h3⟩ := hw
+  refine ⟨h1, fun _ => rfl, fun i => ?_, fun i hi => ?_⟩
+  · exact List.nodup_iff_count.mp h2 i
+  · exact List.count_eq_zero_of_not_mem (fun hm => by have := h3 i hm; omega)
+
+/-- the 15 public initialisation functions on a `lzma_stream` -/
+def isInit : Op → Bool
+  | .streamEncoder _ | .aloneEncoder _ | .microEncoder _ | .rawEncoder _ | .rawDecoder _ | .blockEncoder _
+  | .blockDecoder _ | .indexEncoder | .streamDecoder | .autoDecoder | .aloneDecoder | .lzipDecoder | .microDecoder
+  | .indexDecoder | .fileInfoDecoder => true
+  | _ => false
+
+/-- calls that work on the handle only (they get no caller-owned index or filter array to write to) -/
+def isHandleOp : Op → Bool
+  | .encode .. | .filtersUpdate _ | .lzmaEnd => true
+  | op => isInit op
+
+theorem strmInit_fail (op : NodeOp) (w : World) (f : Oracle) (h : Heap)
+    (hr : (strmInit S op w f h).1.1 ≠ OK) :
+    (strmInit S op w f h).1.2.strm = none ∧ (strmInit S op w f h).1.2.ix = w.ix := by
+  unfold strmInit at hr ⊢
+  simp only [run_bind] at hr ⊢
+  cases hc : (strmEnsure S w f h).1 with
+  | none => simp [hc]
+  | some p =>
+    obtain ⟨i, n⟩ := p
+    simp only [hc, run_bind] at hr ⊢
+    by_cases hne : ((op n f (strmEnsure S w f h).2).1.1 != OK) = true
+    · simp only [hne, if_true, run_bind, run_pure]
+      exact ⟨lzmaEnd_strm _ _ _, lzmaEnd_ix _ _ _⟩
+    · simp only [hne] at hr
+      simp at hr
+
+theorem runOp_init_eq (op : Op) (hop : isInit op = true) (w : World) :
+    ∃ nop : NodeOp, runOp S w op = strmInit S nop w := by
+  cases op <;> simp [isInit] at hop <;> exact ⟨_, rfl⟩
+
+theorem onRoot_ix (op : NodeOp) (w : World) (f : Oracle) (h : Heap) : (onRoot op w f h).1.2.ix = w.ix := by
+  unfold onRoot
+  cases hs : w.strm with
+  | none => simp
+  | some p => obtain ⟨i, n⟩ := p; simp
+
+theorem strmInit_ix (op : NodeOp) (w : World) (f : Oracle) (h : Heap) : (strmInit S op w f h).1.2.ix = w.ix := by
+  by_cases hr : (strmInit S op w f h).1.1 = OK
+  · unfold strmInit at hr ⊢
+    simp only [run_bind] at hr ⊢
+    cases hc : (strmEnsure S w f h).1 with
+    | none => simp [hc]
+    | some p =>
+      obtain ⟨i, n⟩ := p
+      simp only [hc, run_bind] at hr ⊢
+      by_cases hne : ((op n f (strmEnsure S w f h).2).1.1 != OK) = true
+      · simp only [hne, if_true, run_bind, run_pure]; exact lzmaEnd_ix _ _ _
+      · simp [hne]
+  · exact (strmInit_fail S op w f h hr).2
+
+/-- the op keeps the coder struct, its init id and its filter-option array -/
+def KeepsOpts (op : NodeOp) : Prop :=
+  ∀ (i self : Nat) (bufs : List (Option Nat)) (data : List Nat) (opts : List (Option Nat)) (ix0 ix1 : Option Index)
+    (s0 s1 : Node) (f : Oracle) (h : Heap),
+    ∃ bufs' data' ix0' ix1' s0' s1',
+      (op (.mk i self bufs data opts ix0 ix1 s0 s1) f h).1.2 = .mk i self bufs' data' opts ix0' ix1' s0' s1'
+
+theorem keeps_setData (k v : Nat) : KeepsOpts (setData k v) := by
+  intro i self bufs data opts ix0 ix1 s0 s1 f h
+  exact ⟨_, _, _, _, _, _, rfl⟩
+
+theorem keeps_onSub0 (op : NodeOp) : KeepsOpts (onSub0 op) := by
+  intro i self bufs data opts ix0 ix1 s0 s1 f h
+  exact ⟨_, _, _, _, _, _, rfl⟩
+
+theorem keeps_seq {a b : NodeOp} (ha : KeepsOpts a) (hb : KeepsOpts b) : KeepsOpts (a ⨟ b) := by
+  intro i self bufs data opts ix0 ix1 s0 s1 f h
+  obtain ⟨b1, d1, x0, x1, t0, t1, e1⟩ := ha i self bufs data opts ix0 ix1 s0 s1 f h
+  unfold seq
+  simp only [run_bind]
+  split
+  · exact ⟨_, _, _, _, _, _, e1⟩
+  · rw [e1]; exact hb i self b1 d1 opts x0 x1 t0 t1 f _
+
+theorem replaceOpts_fail_keeps (sizes : List (Option Nat)) {body : NodeOp} (hb : KeepsOpts body)
+    (i self : Nat) (bufs : List (Option Nat)) (data : List Nat)
+    (opts : List (Option Nat)) (ix0 ix1 : Option Index) (s0 s1 : Node) (fail : Oracle) (h : Heap)
+    (hr : (replaceOpts sizes body (.mk i self bufs data opts ix0 ix1 s0 s1) fail h).1.1 ≠ OK) :
+    ∃ bufs' data' ix0' ix1' s0' s1',
+      (replaceOpts sizes body (.mk i self bufs data opts ix0 ix1 s0 s1) fail h).1.2 = .mk i self bufs' data' opts ix0' ix1' s0' s1' := by
+  unfold replaceOpts at hr ⊢
+  simp only [run_bind] at hr ⊢
+  cases hc : (filtersCopy sizes fail h).1 with
+  | none => simp only [hc, run_pure]; exact ⟨_, _, _, _, _, _, rfl⟩
+  | some tmp =>
+    simp only [hc, run_bind] at hr ⊢
+    obtain ⟨b1, d1, x0, x1, t0, t1, e1⟩ := hb i self bufs data opts ix0 ix1 s0 s1 fail (filtersCopy sizes fail h).2
+    generalize body (.mk i self bufs data opts ix0 ix1 s0 s1) fail (filtersCopy sizes fail h).2 = rb at hr e1 ⊢
+    obtain ⟨⟨ret, n'⟩, h'⟩ := rb
+    simp only at e1
+    subst e1
+    by_cases hne : (ret != OK) = true
+    · simp only [hne, if_true, run_bind, run_pure]; exact ⟨_, _, _, _, _, _, rfl⟩
+    · simp only [hne, run_bind, run_pure] at hr
+      simp [OK] at hr
+
+theorem streamEncoderUpdate_fail_keeps (c : Chain) (i self : Nat) (bufs : List (Option Nat)) (data : List Nat)
+    (opts : List (Option Nat)) (ix0 ix1 : Option Index) (s0 s1 : Node) (fail : Oracle) (h : Heap)
+    (hr : (streamEncoderUpdate S c (.mk i self bufs data opts ix0 ix1 s0 s1) fail h).1.1 ≠ OK) :
+    ∃ bufs' data' ix0' ix1' s0' s1',
+      (streamEncoderUpdate S c (.mk i self bufs data opts ix0 ix1 s0 s1) fail h).1.2 = .mk i self bufs' data' opts ix0' ix1' s0' s1' := by
+  unfold streamEncoderUpdate at hr ⊢
+  refine replaceOpts_fail_keeps _ ?_ i self bufs data opts ix0 ix1 s0 s1 fail h hr
+  intro i self bufs data opts ix0 ix1 s0 s1 f h
+  simp only []
+  split
+  · exact keeps_seq (keeps_setData _ _) (keeps_seq (keeps_onSub0 _) (keeps_setData _ _)) i self bufs data opts ix0 ix1 s0 s1 f h
+  · split <;> exact ⟨_, _, _, _, _, _, rfl⟩
+
 end XzVerif.Alloc
